@@ -981,6 +981,20 @@ func (comp) Extra(prop string, tier string, seed int64, scratch string) *core.Ex
 		panic(err)
 	}
 	defer os.RemoveAll(scratch)
+	// a flush that FAILS once (the journal fsync reports an error) while the handle stays in use: nothing acknowledged may be lost
+	// for the reads that follow (C08, C11: also their extra)
+	for kind := 0; kind < 2; kind++ {
+		for _, f := range flushFailsOnce(kind, fmt.Sprintf("%s/flushfail%d", scratch, kind), prop) {
+			out.Fails = append(out.Fails, f)
+			out.Replays = append(out.Replays, "harness extra -component crash -prop "+prop+"   # a size-triggered flush whose journal fsync fails once")
+		}
+		out.Counts["flush-fails-once-runs"]++
+		out.Evaluations++
+	}
+	if prop == "C08" || prop == "C11" {
+		out.Rule = "a size-triggered flush whose journal fsync fails once (recording storage, DB and SerialDB, MaxBatchSize 3): every acknowledged Put / Remove is still what Get / Has answer afterwards"
+		return out
+	}
 	rng := rand.New(rand.NewSource(seed))
 	type job struct {
 		i    int
@@ -1165,4 +1179,88 @@ func trickleExposure(kind int, dir string) (fails []core.Fail) {
 		}
 	}
 	return fails
+}
+
+// flushFailsOnce: see Extra. The operation that triggers the failing flush may return the error (then it is not acknowledged and its
+// key is left out of the comparison); everything acknowledged before and after must survive.
+func flushFailsOnce(kind int, dir string, prop string) (fails []core.Fail) {
+	name := []string{"leveldb.DB", "leveldb.SerialDB"}[kind]
+	fail := func(format string, a ...interface{}) {
+		if len(fails) < 4 {
+			fails = append(fails, core.Fail{Property: prop, Step: -1, Msg: "flush failing once (" + name + ", MaxBatchSize 3): " + fmt.Sprintf(format, a...)})
+		}
+	}
+	defer func() {
+		if r := recover(); r != nil {
+			fail("panic: %v", r)
+		}
+	}()
+	leveldb.VerifSetOpenHook(openHook)
+	rs := newRecStorage()
+	path := dir + "/live"
+	registry.Store(path, rs)
+	defer registry.Delete(path)
+	defer os.RemoveAll(dir)
+	p, err := openPersister(kind, path, noTimerDelay, 3)
+	if err != nil {
+		fail("open: %v", err)
+		return
+	}
+	ack := map[string][]byte{} // key -> latest acknowledged value; nil = acknowledged Remove
+	undecided := map[string]bool{}
+	put := func(k, v string) {
+		if e := p.Put([]byte(k), []byte(v)); e == nil {
+			ack[k] = []byte(v)
+			delete(undecided, k)
+		} else {
+			undecided[k] = true
+		}
+	}
+	remove := func(k string) {
+		if e := p.Remove([]byte(k)); e == nil {
+			ack[k] = nil
+			delete(undecided, k)
+		} else {
+			undecided[k] = true
+		}
+	}
+	check := func(q types.Persister, when string) {
+		for k, want := range ack {
+			if undecided[k] {
+				continue
+			}
+			v, gerr := q.Get([]byte(k))
+			herr := q.Has([]byte(k))
+			switch {
+			case want == nil && (gerr == nil || herr == nil):
+				fail("%s: key %s answers (%q, %v) / Has %v although its Remove was acknowledged", when, k, v, gerr, herr)
+			case want != nil && (gerr != nil || !bytes.Equal(v, want) || herr != nil):
+				fail("%s: Get(%s) = (%q, %v), Has = %v; the latest acknowledged Put wrote %q", when, k, v, gerr, herr, want)
+			}
+		}
+	}
+	put("a", "1")
+	put("b", "1")
+	put("c", "1") // third write: flushed
+	put("a", "2")
+	remove("b")
+	check(p, "with two writes pending")
+	rs.failSyncOnce.Store(true)
+	put("d", "1") // third write of the batch: the flush it triggers fails
+	if rs.failSyncOnce.Load() {
+		rs.failSyncOnce.Store(false)
+		fail("the harness could not make the flush fail (no journal fsync during the third write)")
+		return
+	}
+	check(p, "right after the failed flush")
+	put("e", "1")
+	put("f", "1")
+	put("g", "1")
+	remove("c")
+	check(p, "after further writes")
+	// (what a persister reopened afterwards holds is NOT compared: goleveldb retries the failed record under the same sequence numbers and
+	// its journal recovery skips a record whose sequence number goes back -- observed: the key acknowledged right after the failure is
+	// missing after a restart; a behaviour of the dependency under an injected fault, noted in DESIGN section 5, outside the properties)
+	_ = p.Close()
+	return
 }
